@@ -143,6 +143,24 @@ Section LoopProofs.
       rewrite Ht, Hs. exact Hall.
   Qed.
 
+  (** When both phases end by NoChange without any guard rejection and the Post phase left the tree
+      of the Main phase alone, no fix-compatible rule has a fix left on the final tree (H_converged
+      of the idempotence theorem, for fix-compatible rules). *)
+  Lemma converged_from_exits : forall fm pm (sm sm' : st) fp pp (sp' : st),
+    phase_loop Main fm pm sm = (sm', NoChange) ->
+    phase_loop Post fp pp sm' = (sp', NoChange) ->
+    tree _ _ _ sp' = tree _ _ _ sm' ->
+    (forall r f, crawl r (tree _ _ _ sm') = Some f -> mem_key (key (apply (tree _ _ _ sm') f)) (seen _ _ _ sm') = false) ->
+    forall r, In r rules -> fix_compat r = true -> crawl r (tree _ _ _ sp') = None.
+  Proof.
+    intros fm pm sm sm' fp pp sp' Hm Hp Ht Hguard r Hr Hf.
+    destruct (exit_nochange_is_fixpoint Main fm pm sm sm' Hm) as [pass' H].
+    rewrite Ht. destruct (H r Hr) as [Hn|[f [Hc Hk]]].
+    - unfold eligible. rewrite Hf. apply orb_true_r.
+    - exact Hn.
+    - rewrite (Hguard r f Hc) in Hk. discriminate.
+  Qed.
+
   (** * Idempotence of fix from three explicit hypotheses *)
   Section Idem.
     Variable text : Type.
